@@ -293,7 +293,8 @@ static void reentrant_action()
 	else if(act == 2) do_process_one();
 	else if(act == 3) { do_take(); vf_cover(COV_REENTRANT_TAKE); }
 	else if(act == 4) {
-		Model & m = g->m; uint32_t disc[MAXP * 2]; int nd = m.np; for(int i = 0; i < nd; i++) disc[i] = m.p[i].b;
+		Model & m = g->m; volatile uint32_t disc[MAXP * 2];      /* volatile: keeps -O2 cells from turning this copy loop into vector code the engine does not execute */ int nd = m.np;
+			for(int i = 0; i < nd; i++) disc[i] = m.p[i].b;
 		g->q->clearEvents();
 		int k = 0; for(int i = 0; i < m.np; i++) { bool d = false; for(int x = 0; x < nd; x++) if(disc[x] == m.p[i].b) d = true; if(! d) m.p[k++] = m.p[i]; } m.np = k;
 	}
@@ -365,7 +366,8 @@ extern "C" void harness()
 		else if(op == 8) {
 			if(m.np > 0) vf_cover(COV_CLEAR);
 			// the events pending when the call begins are the ones it discards (an argument's destructor may enqueue a new one meanwhile: that one stays)
-			uint32_t disc[MAXP * 2]; int nd = m.np; for(int i = 0; i < nd; i++) disc[i] = m.p[i].b;
+			volatile uint32_t disc[MAXP * 2];      /* volatile: keeps -O2 cells from turning this copy loop into vector code the engine does not execute */ int nd = m.np;
+			for(int i = 0; i < nd; i++) disc[i] = m.p[i].b;
 			g->q->clearEvents();
 #if PAYLOAD != 0
 			for(int i = 0; i < nd; i++) if(disc[i] < MAXSEQ) vf_assert(g_live_seq[disc[i]] == 0, 90);   // the arguments of the events it discards are released before clearEvents returns
